@@ -386,3 +386,73 @@ class Pipeline:
     def unexpected(self):
         """Actors that ended with an exception that did not come through Filter.run's own contract."""
         return [(a.name, a.inc, repr(a.exc), a.exc_tb) for a in self.world.actors if a.exc is not None]
+
+
+class RealClock:
+    """Stands in for the simulated world when the same filters run on real ZeroMQ sockets in real time (cross-check of the model)."""
+    def __init__(self):
+        import time
+        self._t = time
+        self.t0 = time.time_ns()
+        self.log = []
+
+    @property
+    def now(self):
+        return self._t.time_ns() - self.t0
+
+    def sleep(self, secs):
+        self._t.sleep(secs)
+
+
+class RealPipeline(Pipeline):
+    """Same node descriptions, same behaviour-driven Filter class, but real zmq ipc:// sockets and one OS thread per filter."""
+
+    def __init__(self, nodes, tmpdir, seed=0):
+        m = modules()
+        uninstall()
+        self.m = m
+        self.world = RealClock()
+        self.tmpdir = tmpdir
+        self.nodes = {n['id']: n for n in nodes}
+        self.order = [n['id'] for n in nodes]
+        self.ipc = True
+        self.calls, self.ends, self.stops, self.inc, self.actors, self.uid_ctr, self.filters, self.sent = {}, {}, {}, {}, {}, {}, {}, {}
+        self.threads = {}
+        self.cls = self._make_class()
+
+    def out_addrs(self, nid):
+        idx = self.order.index(nid)
+        return [f'ipc://{self.tmpdir}/n{idx}_{k}' for k in range(self.nodes[nid].get('nout', 1))]
+
+    def spawn(self, nid, at_ms=None, cls=None):
+        import time
+        n = self.nodes[nid]
+        inc = self.inc[nid] = self.inc.get(nid, -1) + 1
+        key = (nid, inc)
+        cfg = self.config_for(nid, inc)
+        ev = self.stops[key] = threading.Event()
+        cls = cls or n.get('cls') or self.cls
+        delay = (n.get('start', 0) if at_ms is None else at_ms) / 1000
+
+        def main():
+            time.sleep(delay)
+            try:
+                cls.run(cfg, sig_stop=False, stop_evt=ev, prop_exit='none', obey_exit='none')
+                self.ends[key] = {'how': 'returned', 'exc': None, 't': self.world.now}
+            except BaseException as e:
+                self.ends[key] = {'how': 'raised', 'exc': f'{type(e).__name__}: {e}', 't': self.world.now, 'type': type(e).__name__}
+        t = threading.Thread(target=main, daemon=True, name=nid)
+        self.threads[key] = t
+        t.start()
+
+    def run_until(self, done, timeout_s):
+        import time
+        t_end = time.time() + timeout_s
+        while time.time() < t_end and not done():
+            time.sleep(0.02)
+
+    def finish(self):
+        for ev in self.stops.values():
+            ev.set()
+        for t in self.threads.values():
+            t.join(5)
